@@ -533,6 +533,8 @@ where
 			let _ = s.send(StatusMessage::Scanning(msg, 99));
 		}
 		o.status = OutputStatus::Unspent;
+		// the output may sit in another block than the one we last saw it in
+		o.height = m.1.height;
 		// any transactions associated with this should be cancelled
 		cancel_tx_log_entry(wallet_inst.clone(), keychain_mask, &o)?;
 		wallet_lock!(wallet_inst, w);
@@ -575,6 +577,7 @@ where
 				let _ = s.send(StatusMessage::Scanning(msg, 99));
 			}
 			o.status = OutputStatus::Unspent;
+			o.height = m.1.height;
 			cancel_tx_log_entry(wallet_inst.clone(), keychain_mask, &o)?;
 			wallet_lock!(wallet_inst, w);
 			let mut batch = w.batch(keychain_mask)?;
